@@ -60,13 +60,28 @@ theorem redelivery_is_noop (cx : Ctx) (r : Replica) (c : Block)
 /-- **The walk hands every commit to the merge at most once.** For every block store (well-formed or not), every
     head set and every start commit, the blocks `loadComposites` collects have pairwise distinct identifiers, and so
     has the list actually applied (sorted by height, a permutation of it). Together with `counter_is_sum` this is
-    "nothing doubled" for every DAG. (That the walk also reaches EVERY unmerged ancestor is compared by execution,
-    see the note in MANIFEST.) -/
+    "nothing doubled" for every DAG. (That it also reaches every unmerged ancestor is `walk_reaches_every_unmerged_ancestor`.) -/
 theorem walk_applies_each_commit_at_most_once (bs : Blocks) (heads : List Nat) (c : Nat) :
     ((loadComposites bs heads (bs.length + 1) c ([], [])).1.map (·.id)).Nodup ∧
     ((sortByHeight (loadComposites bs heads (bs.length + 1) c ([], [])).1).map (·.id)).Nodup := by
   have h := (loadComposites_inv bs heads (bs.length + 1) c ([], []) ⟨by simp, by intro b hb; cases hb⟩).1
   exact ⟨h, ((sortByHeight_perm _).map _).nodup_iff.mpr h⟩
+
+/-- **Nothing is skipped that was not merged.** When the walk does not descend into a commit because `isMerged` says
+    it is merged, that commit is one of the document's current heads or an ancestor of one (reachable from the heads
+    by parent links) — for every block store and head set. -/
+theorem walk_skips_only_merged (bs : Blocks) (heads : List Nat) (target height : Nat)
+    (h : isMerged bs heads target height = true) : Reach bs heads target :=
+  isMerged_sound bs heads target height h
+
+/-- **Nothing unmerged is missed.** Every commit that can be reached from the delivered one through available
+    commits that are not reported as merged is visited by the walk and — being itself such a commit — collected
+    for merging; with `walk_applies_each_commit_at_most_once`: exactly once. For every block store (no acyclicity or
+    height assumption is needed: the fuel `length + 1` provably suffices). -/
+theorem walk_reaches_every_unmerged_ancestor (bs : Blocks) (heads : List Nat) (c x : Nat) (hp : UPath bs heads c x)
+    (b : Block) (hb : bs.get? x = some b) (hnm : isMerged bs heads x b.height = false) :
+    b ∈ (loadComposites bs heads (bs.length + 1) c ([], [])).1 :=
+  (walk_reaches bs heads c x hp).2 b hb hnm
 
 /-! non-vacuity -/
 def inc1 : Block := ⟨2, .field "points", "d", 1, [], [], .ctr 1⟩
